@@ -97,8 +97,21 @@ func c14r2(r *R) {
 		if !o.Check(ok, "currentCert's address escapes (%s)", a.Kind) {
 			continue
 		}
+		// a setter split off ReadCertificate (new helper, one call site): the value and the conditions are those of the call
+		val, site, siteFn := st.Val, ssa.Instruction(st), a.Fn
+		if prm, isPrm := val.(*ssa.Parameter); isPrm {
+			for k, p := range a.Fn.Params {
+				if p == prm {
+					if arg := c.uniqueCallArg(a.Fn, k); arg != nil {
+						if cs := c.uniqueCallSite(a.Fn); cs != nil {
+							val, site, siteFn = arg, cs, cs.Parent()
+						}
+					}
+				}
+			}
+		}
 		// stored value: address of the local holding LoadX509KeyPair's result #0
-		al, isAlloc := st.Val.(*ssa.Alloc)
+		al, isAlloc := val.(*ssa.Alloc)
 		if !o.Check(isAlloc, "currentCert is assigned %s, want the address of the freshly loaded pair", c.Expr(st.Val)) {
 			continue
 		}
@@ -108,10 +121,10 @@ func c14r2(r *R) {
 		}
 		e := c.Expr(us.Val)
 		o.Check(e == "crypto/tls.LoadX509KeyPair(p0.certPath, p0.keyPath)#0", "the swapped-in certificate is %s, want tls.LoadX509KeyPair(cw.certPath, cw.keyPath)#0 (certificate path first, key path second)", e)
-		gs := c.guardStrs(st.Block())
+		gs := c.guardStrs(site.Block())
 		o.Check(hasGuard(gs, "-(crypto/tls.LoadX509KeyPair(p0.certPath, p0.keyPath)#1 != nil)"), "the swap is not dominated by the load's err == nil edge: a failed or half-written reload would replace the last good pair; guards %v", gs)
 		// the error edge returns the error (keeps the previous pointer)
-		eachInstr(a.Fn, func(i ssa.Instruction) {
+		eachInstr(siteFn, func(i ssa.Instruction) {
 			if ret, ok := i.(*ssa.Return); ok && hasGuard(c.guardStrs(i.Block()), "+(crypto/tls.LoadX509KeyPair(p0.certPath, p0.keyPath)#1 != nil)") {
 				o.Check(c.Expr(ret.Results[0]) == "crypto/tls.LoadX509KeyPair(p0.certPath, p0.keyPath)#1", "load error edge returns %s", c.Expr(ret.Results[0]))
 			}
@@ -150,6 +163,15 @@ func evtNorm(g string) string {
 func evtGuards(c *Ctx, b *ssa.BasicBlock) []string {
 	var out []string
 	for _, g := range c.guardStrs(b) {
+		// one test of the three bits together: Op & (Create|Write|Remove) compared with 0
+		switch g {
+		case "+(0 == (7 & p1.Op))", "+((7 & p1.Op) == 0)":
+			out = append(out, "-certwatcher.isWrite(p1)", "-certwatcher.isRemove(p1)", "-certwatcher.isCreate(p1)")
+			continue
+		case "+(0 != (7 & p1.Op))", "+((7 & p1.Op) != 0)":
+			out = append(out, "+any-of certwatcher.isWrite(p1) certwatcher.isRemove(p1) certwatcher.isCreate(p1)")
+			continue
+		}
 		out = append(out, evtNorm(g))
 	}
 	return out
@@ -220,6 +242,10 @@ func c14r3(r *R) {
 			found := false
 			eachInstr(he, func(i ssa.Instruction) {
 				if bo, ok := i.(*ssa.BinOp); ok && evtNorm(c.Expr(bo)) == "certwatcher."+p[0]+"(p1)" {
+					found = true
+				}
+				// or as one bit of the combined mask test
+				if bo, ok := i.(*ssa.BinOp); ok && (c.Expr(bo) == "(0 == (7 & p1.Op))" || c.Expr(bo) == "(0 != (7 & p1.Op))" || c.Expr(bo) == "((7 & p1.Op) == 0)" || c.Expr(bo) == "((7 & p1.Op) != 0)") {
 					found = true
 				}
 			})
